@@ -9,7 +9,7 @@
    tokenizer and LALR driver on arbitrary bytes.  That part is covered only by the
    failing-input search of tools/props/c09.py, which supports but does not replace a theorem. *)
 From Coq Require Import String Ascii ZArith List Bool.
-From BP Require Import Re TotalBase Schema Total TotalProofs.
+From BP Require Import Re ReLinear TotalBase Schema Total TotalProofs.
 From BPGen Require Import GenC09.
 Import ListNotations.
 Open Scope Z_scope.
@@ -185,6 +185,42 @@ Theorem C09_render_total_names :
   In "snake_case"%string name_funcs_analysed.
 Proof. exact (conj name_funcs_total (conj (or_intror (or_introl eq_refl)) (or_intror (or_intror (or_introl eq_refl))))). Qed.
 Print Assumptions C09_render_total_names.
+
+(* no regular expression applied to user text (the name converters' in utils.py, the translated
+   token rules) has a quantifier inside a quantifier or an ambiguous iteration; for such FLAT
+   regexes a backtracking matcher (greedy, longest position first, alternatives left to right)
+   needs at most (#items + 1) * (n + 2) ^ #quantifiers steps on a text of length n.
+   PARTIAL: that CPython's sre does no more work than this matcher is trusted, not proved. *)
+Theorem C09_regexes_flat : regexes_not_flat = [].
+Proof. exact regexes_flat. Qed.
+Print Assumptions C09_regexes_flat.
+
+Theorem C09_backtracking_polynomial :
+  forall items s, (fst (bt items s) <= (length items + 1) * (length s + 2) ^ nstars items)%nat.
+Proof. exact bt_steps_poly. Qed.
+Print Assumptions C09_backtracking_polynomial.
+
+Theorem C09_regex_table_polynomial :
+  forall e, In e all_regexes ->
+    exists alts, flatten (snd e) = Some alts /\
+      forall a s, In a alts ->
+        (fst (bt a s) <= (length a + 1) * (length s + 2) ^ nstars a)%nat.
+Proof. exact regex_table_polynomial. Qed.
+Print Assumptions C09_regex_table_polynomial.
+
+(* the check is not vacuous: the classic exponential shapes are rejected, and the matcher agrees
+   with the semantics on examples *)
+Example C09_flat_nonvacuous :
+  is_flat (RSeq (RStar (RIn false [CRange 48 57]))
+                (RPlus (RSeq (RPlus (RIn false [CRange 65 90])) (RStar (RIn false [CRange 48 57]))))) = false /\
+  is_flat (RStar (RAlt (RChar 97) (RAlt (RSeq (RChar 97) (RChar 98)) (RChar 98)))) = false /\
+  is_flat string_literal_re = true /\
+  length all_regexes = 14%nat /\
+  match flatten string_literal_re with
+  | Some [a] => snd (bt a (asc [34; 97; 92; 34; 98; 34]%nat)) = true /\ snd (bt a (asc [34; 97; 92; 34]%nat)) = false
+  | _ => False
+  end.
+Proof. vm_compute. repeat split; reflexivity. Qed.
 
 Example C09_render_nonvacuous :
   render LPy (TMsg false [(1, TArr false 3 (TEnum 3 [0; 1])); (2, TAlias (TArr true 2 TByte));
